@@ -87,6 +87,9 @@ def decide(pid, prop, tier, seed, results, undecided, t0, load_expect, findings)
         if expect is None:
             undec.append((r.name, 'no units/%s.expect (pinned-tree record) present' % r.name))
             continue
+        for wk, wv in r.gen.watched.items():
+            if pid in wv['tags'] and getattr(expect, 'watched', {}).get(wk) != wv['sha']:
+                undec.append((r.name, 'watched function %s (outside the verifier\'s reach, covered only by the bounded oracle) changed since the pinned tree' % wk))
         mine = {k: o for k, o in r.obligations.items() if pid in o['tags']}
         missing = [k for k in expect if k not in r.obligations]
         if missing:
